@@ -3,12 +3,14 @@ package pqcheck
 import (
 	"fmt"
 	"runtime/debug"
+	"strings"
 
 	"github.com/elastic/go-txfile/pq"
 	"github.com/elastic/go-txfile/txerr"
 
 	"verif/core"
 	"verif/filecheck"
+	"verif/simdisk"
 )
 
 // C15, queue layer cells.
@@ -33,6 +35,8 @@ var queueCells = []string{
 	"Queue.ACK(1) on a queue that never held an event",
 	"Queue.ACK(pending+1)",
 	"Queue.ACK(pending+1000)",
+	"Queue.ACK(1) after a Queue.Close that failed to flush (file full)",
+	"Queue.Reader() after a Queue.Close that failed to flush (file full), Begin",
 }
 
 func init() {
@@ -53,40 +57,6 @@ func runQueueMisuse(c *core.Case, name string, res *core.Result) {
 		res.Key = name + "/" + q.Key()
 		res.Nontrivial = true
 	}()
-	if !q.Open() {
-		return
-	}
-	empty := name == "Queue.ACK(1) on a queue that never held an event"
-	if !empty {
-		// prefix history
-		n := 3 + r.Intn(10)
-		for i := 0; i < n; i++ {
-			if !q.WriteChunk(1+r.Intn(3000), 0) {
-				return
-			}
-		}
-		if !q.Flush() {
-			return
-		}
-		// read and ACK a few
-		k := r.Intn(n - 1)
-		if !q.BeginRead() {
-			return
-		}
-		for i := 0; i < k; i++ {
-			if !q.ReadNext() || !q.Read(1<<20) {
-				return
-			}
-		}
-		if !q.DoneRead() {
-			return
-		}
-		if k > 0 && r.Chance(1, 2) && !q.ACK(1+r.Intn(k)) {
-			return
-		}
-	}
-	pendBefore, _ := q.Q.Pending()
-
 	type out struct {
 		err      error
 		panicked bool
@@ -124,6 +94,93 @@ func runQueueMisuse(c *core.Case, name string, res *core.Result) {
 		}
 		return q.violate("misuse-kind", "misuse-kind:queue:"+name, "%s returned error kinds [%s] (%v), expected %v", name, kinds(o.err), o.err, kindsOK)
 	}
+
+	failedClose := strings.Contains(name, "failed to flush")
+	if failedClose {
+		// small bounded file, filled until the writer reports full with events still buffered
+		ps := 1024
+		cfg = QConfig{File: filecheck.Config{PageSize: uint32(ps), MaxPages: 64 + r.Intn(16), DiskCap: 1 << 20, SyncMode: r.Intn(3)}, WriteBuffer: uint(4 * ps)}
+		q.Cfg = cfg
+		q.Disk = simdisk.New("simdisk", cfg.File.DiskCap)
+	}
+	if !q.Open() {
+		return
+	}
+	if failedClose {
+		for i := 0; i < 400 && q.WriteErrs+q.NextErrs+q.FlushErrs == 0; i++ {
+			if !q.WriteChunk(200+r.Intn(1500), 0) {
+				return
+			}
+		}
+		// a few more events that stay in the write buffer
+		for i := 0; i < 2; i++ {
+			if !q.WriteChunk(300, 0) {
+				return
+			}
+		}
+		if q.WriteErrs+q.NextErrs+q.FlushErrs == 0 || q.cbFlushed == q.Completed {
+			res.Status, res.Note = core.Inconclusive, "could-not-produce-failing-close"
+			return
+		}
+		pend, _ := q.Q.Pending()
+		var cerr error
+		if q.guard("Queue.Close", func() { cerr = q.Q.Close() }) {
+			return
+		}
+		if cerr == nil {
+			res.Status, res.Note = core.Inconclusive, "close-did-not-fail"
+			return
+		}
+		o := call(func() error {
+			if strings.Contains(name, "ACK") {
+				return q.Q.ACK(1)
+			}
+			rd := q.Q.Reader()
+			err := rd.Begin()
+			if err == nil {
+				rd.Done()
+			}
+			return err
+		})
+		if !expect(o, pq.QueueClosed, pq.ReaderClosed) {
+			return
+		}
+		pend2, err := q.Q.Pending()
+		if err != nil || pend2 != pend {
+			q.violate("misuse-effect", "misuse-effect:queue:"+name, "%s changed Pending from %d to %d (%v)", name, pend, pend2, err)
+		}
+		return
+	}
+	empty := name == "Queue.ACK(1) on a queue that never held an event"
+	if !empty {
+		// prefix history
+		n := 3 + r.Intn(10)
+		for i := 0; i < n; i++ {
+			if !q.WriteChunk(1+r.Intn(3000), 0) {
+				return
+			}
+		}
+		if !q.Flush() {
+			return
+		}
+		// read and ACK a few
+		k := r.Intn(n - 1)
+		if !q.BeginRead() {
+			return
+		}
+		for i := 0; i < k; i++ {
+			if !q.ReadNext() || !q.Read(1<<20) {
+				return
+			}
+		}
+		if !q.DoneRead() {
+			return
+		}
+		if k > 0 && r.Chance(1, 2) && !q.ACK(1+r.Intn(k)) {
+			return
+		}
+	}
+	pendBefore, _ := q.Q.Pending()
 
 	closedCase := false
 	buf := make([]byte, 64)
